@@ -1050,6 +1050,10 @@ class Interp:
             return self.equals(a, b)
         if isinstance(a, bool) and isinstance(b, bool):
             return a is b
+        from .values import SPredSet
+        from .seq import SSeq
+        if isinstance(a, (GList, SPredSet, SSet, SSeq, tuple)) or isinstance(b, (GList, SPredSet, SSet, SSeq, tuple)):
+            return a is b
         raise Unsupported('identity comparison')
 
     def equals(self, a, b):
@@ -1574,7 +1578,7 @@ class Interp:
             return list(it.keys())
         if isinstance(it, (set, frozenset)):
             # deterministic order for reproducibility; consumers of set iteration must be order independent (S-set)
-            return sorted(it, key=lambda x: (getattr(x, 'index', 0), repr(x)))
+            return sorted(it, key=lambda x: (x.index if isinstance(x, EnumVal) else 0, repr(x)))
         if isinstance(it, str):
             return list(it)
         if isinstance(it, ClassInfo) and it.is_enum:
